@@ -118,9 +118,12 @@ NIX_CANARY(featureData_tag_index) __CPROVER_assigns(nix_exc, gh_views, gh_view_c
    The two index lookups are ghost inputs with their C07 contracts assumed: the pair lookup is asked for
    [position, position + extent] in the given mode; the point fallback asks for GreaterOrEqual(position). */
 typedef struct { size_t len; } nstring;
-typedef struct { int _d; } Dimension;
+typedef struct { DimensionType type; double x0; ndsize_t q; double xq; ndsize_t n_ticks; } Dimension;   /* x0 = coordinate of index 0, xq = coordinate of index q (any q) */
+typedef Dimension SampledDimension;
+typedef Dimension RangeDimension;
 extern opt_pair gh_pair; extern opt_ndsize gh_ge;
 extern double gh_pair_start, gh_pair_end; extern RangeMatch gh_pair_match; extern int gh_pair_calls;
+extern int gh_unspecified;     /* ghost, chosen by the harness, invisible to the code: dimension i is one the tag does NOT specify (it was padded) */
 static inline opt_pair positionToIndex_pair1(double start, double end, const nstring *unit, RangeMatch match, const Dimension *dimension)
 { gh_pair_calls++; gh_pair_start = start; gh_pair_end = end; gh_pair_match = match; return gh_pair; }
 NIX_THROWS opt_ndsize positionToIndex_scalar(double position, const nstring *unit, PositionMatch match, const Dimension *dimension)
@@ -144,7 +147,56 @@ __CPROVER_ensures(/*point:no-element-at-or-after-throws*/ (!gh_pair.has && exten
 __CPROVER_ensures(/*empty-region-throws*/ (!gh_pair.has && !(extent_i == 0.0)) ==> (nix_exc == EXC_OutOfBounds || nix_exc == EXC_IncompatibleDimensions))
 __CPROVER_ensures(/*other-dimensions-untouched*/ (ghost_k < temp_offset->rank && ghost_k != i) ==>
                   (temp_offset->dims[ghost_k] == T_OLD(temp_offset, ghost_k) && temp_count->dims[ghost_k] == T_OLD(temp_count, ghost_k)))
+/* "... and all elements along dimensions it does not specify": an unspecified dimension is padded with (first coordinate, distance to the last
+   coordinate) - getMaxExtent below - so the region asked for it ends AT the last coordinate and must be closed there whatever the mode. */
+__CPROVER_ensures(/*unspecified-dimension-keeps-its-last-element*/ gh_unspecified ==> gh_pair_match == RangeMatch_Inclusive)
 NIX_CANARY(tag_assemble_dim) __CPROVER_assigns(nix_exc, gh_pair_calls, gh_pair_start, gh_pair_end, gh_pair_match; temp_offset->dims[i]; temp_count->dims[i])
+;
+
+/* ---- getMaxExtent(dim, max_index, pos, ext): the (position, extent) pair a dimension the tag does NOT specify is padded with ----
+   "... and all elements along dimensions it does not specify".  The assembly loop (tag_assemble_dim / mtag_assemble_dim, proved) asks the axis
+   for the region [position, position + extent]; an unspecified dimension is padded with the pair computed here, so the pair must be
+   (coordinate of the first element, distance from it to the coordinate of the last element max_index).
+   The axis is abstracted to the two coordinates this function reads: x0 = x_0 and xq = x_q for the index q = max_index
+   (any other index: arbitrary value).  Set / data-frame axes: x_i = i.  Range axis: tickAt raises OutOfBounds past the last tick.
+   The value clause "extent == xq - x0" for ALL doubles is a miter of two floating-point subtractors and does not terminate on the SAT back ends
+   (cadical: 85 s, minisat / z3 / cvc5: > 300 s), so it is stated (a) for all doubles in the forms that need no subtraction in the contract
+   (x0 == 0, x0 == xq, sign) and (b) exactly on an enumerated set of (x0, xq) pairs.
+   NOT decided: that x0 + (xq - x0) == xq in double arithmetic (treated as mathematical); Exclusive mode (known finding KF-C05-exclusive-padding). */
+static inline DimensionType Dimension_dimensionType(const Dimension *d)
+{ return d->type; }
+static inline SampledDimension Dimension_asSampledDimension(const Dimension *d)
+{ return *d; }
+static inline RangeDimension Dimension_asRangeDimension(const Dimension *d)
+{ return *d; }
+double nondet_double(void);
+static inline double SampledDimension_positionAt(const SampledDimension *sd, ndsize_t index)
+{ return index == 0 ? sd->x0 : (index == sd->q ? sd->xq : nondet_double()); }
+NIX_THROWS static inline double RangeDimension_tickAt(const RangeDimension *rd, ndsize_t index)
+{ if (index >= rd->n_ticks) { nix_exc = EXC_OutOfBounds; return 0.0; }
+  return index == 0 ? rd->x0 : (index == rd->q ? rd->xq : nondet_double()); }
+/* check::converts_to_double<ndsize_t> (include/nix/Exception.hpp): the value if it survives the round trip, else OutOfBounds */
+NIX_THROWS static inline double converts_to_double(ndsize_t num, const char *msg_if_fail)
+{ double dbl = (double)num;
+  if (dbl >= 18446744073709551616.0 || (ndsize_t)dbl != num) { nix_exc = EXC_OutOfBounds; return 0.0; }
+  return dbl; }
+#define DIM_INTEGER_AXIS(d) ((d)->type == DimensionType_Set || (d)->type == DimensionType_DataFrame)
+#define PAD_PAIR(a, b) ((dim->x0 == (a) && dim->xq == (b)) ==> *ext == (b) - (a))      /* constants: folded by the front end, no symbolic subtraction in the contract */
+#define SAME_D(a, b) ((a) == (b) || (isnan(a) && isnan(b)))
+NIX_THROWS void getMaxExtent(const Dimension *dim, ndsize_t max_index, double *pos, double *ext)
+__CPROVER_requires(__CPROVER_is_fresh(dim, sizeof(Dimension)) && __CPROVER_is_fresh(pos, sizeof(double)) && __CPROVER_is_fresh(ext, sizeof(double)) && nix_exc == EXC_NONE)
+__CPROVER_requires((dim->type == DimensionType_Sample || dim->type == DimensionType_Set || dim->type == DimensionType_Range || dim->type == DimensionType_DataFrame) &&
+                   dim->q == max_index && (max_index == 0 ==> SAME_D(dim->xq, dim->x0)) &&
+                   (DIM_INTEGER_AXIS(dim) ==> (dim->x0 == 0.0 && max_index < 9007199254740992ull && dim->xq == (double)max_index)))
+__CPROVER_ensures(/*padded-position-is-the-first-coordinate*/ nix_exc == EXC_NONE ==> SAME_D(*pos, dim->x0))
+__CPROVER_ensures(/*padded-extent:first-coordinate-zero-gives-the-last-coordinate*/ (nix_exc == EXC_NONE && dim->x0 == 0.0) ==> SAME_D(*ext, dim->xq))
+__CPROVER_ensures(/*padded-extent:single-coordinate-gives-zero*/ (nix_exc == EXC_NONE && dim->x0 == dim->xq && !isinf(dim->x0)) ==> *ext == 0.0)
+__CPROVER_ensures(/*padded-extent:has-the-sign-of-last-minus-first*/ nix_exc == EXC_NONE ==> ((dim->xq > dim->x0 ==> *ext > 0.0) && (dim->xq < dim->x0 ==> *ext < 0.0)))
+__CPROVER_ensures(/*padded-extent:is-last-minus-first-on-the-enumerated-axes*/ nix_exc == EXC_NONE ==> (PAD_PAIR(100.0, 110.0) && PAD_PAIR(-5.0, 5.0) && PAD_PAIR(-8.0, 2.0) && PAD_PAIR(0.1, 0.7) &&
+                  PAD_PAIR(0.001, 2.5) && PAD_PAIR(-1e300, 1e300) && PAD_PAIR(3.0, 1.0) && PAD_PAIR(1e16, 1e16 + 2.0) && PAD_PAIR(-0.25, 1023.75)))
+__CPROVER_ensures(/*raises-only-for-a-range-axis-with-too-few-ticks*/ nix_exc != EXC_NONE <==> (dim->type == DimensionType_Range && dim->n_ticks <= max_index))
+__CPROVER_ensures(nix_exc == EXC_NONE || nix_exc == EXC_OutOfBounds)
+NIX_CANARY(getMaxExtent) __CPROVER_assigns(nix_exc; *pos; *ext)
 ;
 #undef RV
 #endif
